@@ -54,6 +54,8 @@ type Place struct {
 	GoType   types.Type
 }
 
+type heapParent struct{ old, wm string }
+
 type IterState struct {
 	Kind    string // "map" | "string"
 	X       Val
@@ -133,6 +135,7 @@ type FnCtx struct {
 	notes       map[string]bool // abstractions encountered
 	kcount      map[string]int
 	callsiteHit map[int]bool
+	dynCalls    int
 	boxes       map[Sort]bool
 	lits        map[string]string
 	litSeq      []string
@@ -147,6 +150,7 @@ type FnCtx struct {
 	finfo       []factInfo
 	funDecl     map[string]bool
 	pendingHWM  []string
+	hparent     map[string]heapParent // heap version made by a fresh-rows-only havoc -> previous version and the watermark then
 	hwm         map[string]string // heap version term -> watermark when that version was created
 	protected   []protCell
 	dbgUses     map[string][]ssa.Value
@@ -352,6 +356,11 @@ func (c *FnCtx) havocHeap(name string) string {
 	c.declare(n, c.heapSort(name))
 	if name == "$wm" {
 		c.fact(fmt.Sprintf("(>= %s %s)", n, c.H(name)))
+		// heap versions made by the same havoc: their contents are not younger than the new watermark
+		for _, p := range c.pendingHWM {
+			c.hwm[p] = n
+		}
+		c.pendingHWM = nil
 	}
 	c.st[name] = n
 	if name != "$wm" && c.hwm != nil {
